@@ -56,6 +56,11 @@ CLAIMS = {
          'TLC sweeps day number <-> civil date round trips over year windows on both sides of year 0 and around 100/400-year borders out to +-5M years, and explores chains of one or two operations over a grid of BCE / CE / beyond-9999 years, leap borders, 24:00:00, fractional seconds and timezones -14:00..+14:00, checking d+dur-dur=d, d1+(d2-d1)=d2, comparison = order of instants, adjust preserves the instant, end-of-month clamping; 212k edges are replayed (671k evaluations).',
          '|year| <= 5,000,000 (32-bit TLC integers); xs:duration with both parts, gDay/gMonth/gMonthDay and overflow error codes not covered; XSD 1.0 year -0001 read as 1 BCE (a leap year), as the code\'s own todelta does',
          'DESIGN.md section 4 C11'),
+ 'C10': ('model_checking',
+         'TLA+ specs Lexical (character-level recognisers and lexical-to-value maps per type family, whitespace facets, XSD 1.0/1.1 differences), Canon (F&O canonical forms), CastTable (the 23x23 casting matrix) and CastChain (value-state machine Pick/Construct/Cast/Castable/ToStr) with fixed-point, round-trip, table and bounds laws as invariants; every literal and cast edge replayed through the three code paths (datatypes constructors/is_valid/str/hash, xs:T($s), cast/castable as) for XSD 1.0 and 1.1',
+         'TLC enumerates every token string of length <= 3 (thorough 4) over the family alphabets for ~45 types and every cell of the casting table with at least two source values, checks canonical-form fixed points, round trips along Y cells, inclusive subtype bounds and castable <=> cast on the specification, and the 474k edges are replayed (1.15M evaluations) so that the three implementation paths must agree with the spec and hence with each other.',
+         'alphabet representatives only for Name/NCName/language/anyURI character classes; literals the W3C text leaves to the implementation are marked UNSPEC/LIMIT and never judged; second oracles (re with the XSD patterns, decimal, float, base64) cross-check the spec only',
+         'DESIGN.md section 4 C10'),
 }
 NOT_YET = 'check not built yet (construction in progress, see DESIGN.md section 5)'
 
